@@ -48,6 +48,20 @@ impl<S, E, D> CipherStream<S, E, D> {
     }
 }
 
+impl<S, E, D: BlockDecryptMut> CipherStream<S, E, D> {
+    /// Decrypts bytes that were already taken from the inner stream before the decryptor was set,
+    /// for example the part of a read that reaches beyond the packet that enables encryption.
+    pub fn decrypt_buffered(&mut self, buf: &mut [u8]) {
+        let Some(dec) = &mut self.decryptor else {
+            return;
+        };
+        for chunk in buf.chunks_mut(D::block_size()) {
+            let gen_arr = GenericArray::from_mut_slice(chunk);
+            dec.decrypt_block_mut(gen_arr);
+        }
+    }
+}
+
 impl<S> CipherStream<S, Aes128Cfb8Enc, Aes128Cfb8Dec> {
     pub fn from_secret(inner: S, shared_secret: &[u8]) -> Result<Self, Error> {
         let (encryptor, decryptor) = create_ciphers(shared_secret)?;
